@@ -51,8 +51,11 @@ pub enum Pending {
     DetachPending,
     EndPending,
     ClosePending,
+    /// like BatchableOutcome, and the peer has already reported a non-terminal state for the delivery
+    /// (disposition received(0, 0), not settled) when the fault comes
+    BatchableOutcomeReceived,
 }
-pub const PENDINGS: [Pending; 9] = [
+pub const PENDINGS: [Pending; 10] = [
     Pending::Idle,
     Pending::SendWaitingCredit,
     Pending::SendAwaitingOutcome,
@@ -62,6 +65,7 @@ pub const PENDINGS: [Pending; 9] = [
     Pending::DetachPending,
     Pending::EndPending,
     Pending::ClosePending,
+    Pending::BatchableOutcomeReceived,
 ];
 
 #[derive(Debug, Clone, Copy, PartialEq, Eq, Hash)]
@@ -82,8 +86,11 @@ pub enum Flt {
     PeerDetachROpenErr,
     Eof,
     Reset,
+    /// the peer shuts down its sending direction (FIN) without a close frame: reads see EOF, writes and the
+    /// local shutdown still succeed
+    PeerHalfClose,
 }
-pub const FAULTS: [Flt; 14] = [
+pub const FAULTS: [Flt; 15] = [
     Flt::PeerClose,
     Flt::PeerCloseErr,
     Flt::PeerCloseErrThenReset,
@@ -98,11 +105,12 @@ pub const FAULTS: [Flt; 14] = [
     Flt::PeerDetachROpenErr,
     Flt::Eof,
     Flt::Reset,
+    Flt::PeerHalfClose,
 ];
 
 
 fn conn_level(f: Flt) -> bool {
-    matches!(f, Flt::PeerClose | Flt::PeerCloseErr | Flt::PeerCloseErrThenReset | Flt::PeerCloseErrThenDrop | Flt::PeerCloseErrThenEofAtOnce | Flt::Eof | Flt::Reset)
+    matches!(f, Flt::PeerClose | Flt::PeerCloseErr | Flt::PeerCloseErrThenReset | Flt::PeerCloseErrThenDrop | Flt::PeerCloseErrThenEofAtOnce | Flt::Eof | Flt::Reset | Flt::PeerHalfClose)
 }
 fn sess_level(f: Flt) -> bool {
     matches!(f, Flt::PeerEnd | Flt::PeerEndErr)
@@ -121,7 +129,7 @@ fn carries(f: Flt) -> bool {
 fn pending_affected(pd: Pending, f: Flt) -> bool {
     match pd {
         Pending::Idle => false,
-        Pending::SendWaitingCredit | Pending::SendAwaitingOutcome | Pending::BatchableOutcome | Pending::DetachPending => conn_level(f) || sess_level(f) || s_link(f),
+        Pending::SendWaitingCredit | Pending::SendAwaitingOutcome | Pending::BatchableOutcome | Pending::BatchableOutcomeReceived | Pending::DetachPending => conn_level(f) || sess_level(f) || s_link(f),
         Pending::RecvWaiting => conn_level(f) || sess_level(f) || r_link(f),
         Pending::AttachPending | Pending::EndPending => conn_level(f) || sess_level(f),
         Pending::ClosePending => conn_level(f),
@@ -201,11 +209,11 @@ pub async fn scenario_b(pd: Pending, flt: Flt) -> BObs {
                 (r, Back::S(s))
             }))
         }
-        Pending::SendAwaitingOutcome | Pending::BatchableOutcome => {
+        Pending::SendAwaitingOutcome | Pending::BatchableOutcome | Pending::BatchableOutcomeReceived => {
             c.peer.grant(0, s_lib_handle, 10);
             settle(&mut c.peer, 1).await;
             let mut s = sender_opt.take().unwrap();
-            let batch = pd == Pending::BatchableOutcome;
+            let batch = pd != Pending::SendAwaitingOutcome;
             Some(tokio::spawn(async move {
                 let r = if batch {
                     match s.send_batchable("outcome outstanding").await {
@@ -260,6 +268,20 @@ pub async fn scenario_b(pd: Pending, flt: Flt) -> BObs {
         }
     };
     settle(&mut c.peer, 2).await;
+    if pd == Pending::BatchableOutcomeReceived {
+        // the delivery the library has just sent: a non-terminal state, not settled
+        let id = c.peer.trace.iter().rev().find_map(|w| match (&w.body, w.dir) {
+            (vlib::peer::Body::Perf(Performative::Transfer(t)), vlib::peer::Dirn::FromLib) => t.delivery_id,
+            _ => None,
+        });
+        if let Some(id) = id {
+            let st = fe2o3_amqp_types::messaging::DeliveryState::Received(fe2o3_amqp_types::messaging::Received { section_number: 0, section_offset: 0 });
+            c.peer.send(0, Performative::Disposition(Disposition { role: fe2o3_amqp_types::definitions::Role::Receiver, first: id, last: None, settled: false, state: Some(st), batchable: false }));
+            settle(&mut c.peer, 2).await;
+        } else {
+            obs.machinery = Some("part B: no transfer on the wire for the batchable send".into());
+        }
+    }
     obs.pending_was_pending = pending_task.as_ref().map(|t| !t.is_finished()).unwrap_or(false);
     // ---- the fault
     match flt {
@@ -289,6 +311,7 @@ pub async fn scenario_b(pd: Pending, flt: Flt) -> BObs {
         Flt::PeerDetachROpenErr => c.peer.send(0, Performative::Detach(Detach { handle: Handle(r_our_handle), closed: false, error: Some(cond()) })),
         Flt::Eof => c.pipe.break_now(FaultMode::Eof),
         Flt::Reset => c.pipe.break_now(FaultMode::Reset),
+        Flt::PeerHalfClose => c.peer.close_write(),
     }
     settle(&mut c.peer, 3).await;
     // ---- collect the pending operation (its own time-out bounds it)
@@ -406,7 +429,7 @@ fn judge_b(pd: Pending, flt: Flt, o: &BObs, panics: &[String]) -> Vec<(String, S
             f.push((format!("op-after-fault-succeeds op={name} fault={:?}", flt), format!("{what}: {name} returned Ok although its {scope_name} had stopped; {}", all())));
         }
     }
-    let data_pending = matches!(pd, Pending::SendWaitingCredit | Pending::SendAwaitingOutcome | Pending::BatchableOutcome | Pending::RecvWaiting | Pending::AttachPending);
+    let data_pending = matches!(pd, Pending::SendWaitingCredit | Pending::SendAwaitingOutcome | Pending::BatchableOutcome | Pending::BatchableOutcomeReceived | Pending::RecvWaiting | Pending::AttachPending);
     if data_pending && pending_affected(pd, flt) && o.pending_was_pending && o.pending_result == "ok" {
         f.push((format!("pending-op-succeeds pending={:?} fault={:?}", pd, flt), format!("{what}: the operation in progress returned Ok although its {scope_name} stopped; {}", all())));
     }
@@ -461,7 +484,7 @@ fn judge_b(pd: Pending, flt: Flt, o: &BObs, panics: &[String]) -> Vec<(String, S
         if matches!(flt, Flt::PeerCloseErr | Flt::PeerCloseErrThenReset | Flt::PeerCloseErrThenDrop | Flt::PeerCloseErrThenEofAtOnce) && !r.contains(COND_DBG) {
             f.push((format!("connection-handle-lost-peer-error fault={:?}", flt), format!("{what}: connection.close() reports {r}, the peer closed with resource-limit-exceeded; {}", all())));
         }
-        if matches!(flt, Flt::Eof | Flt::Reset) && r == "ok" {
+        if matches!(flt, Flt::Eof | Flt::Reset | Flt::PeerHalfClose) && r == "ok" {
             f.push((format!("connection-handle-hides-transport-failure fault={:?}", flt), format!("{what}: the transport broke but connection.close() returned Ok; {}", all())));
         }
     }
